@@ -1,7 +1,7 @@
 #!/usr/bin/env python3
 """Validate a seeded property-breaking change and run the checks against it.
 
-usage: eval_seed.py <PROP> <variant> [extra check ids...]   e.g.  eval_seed.py C05 a C13
+usage: [SEED_ROUND=2] eval_seed.py <PROP> <variant> [extra check ids...]   e.g.  eval_seed.py C05 a C13
 
 Steps (all in scratch places; /repo is restored afterwards):
   1. in the scratch worktree /tmp/wt_<PROP>: clean tree; demo passes (exit 0); apply patch; 278 tests pass; demo fails (exit 1); revert
@@ -25,7 +25,9 @@ def sh(cmd, cwd=None, timeout=3600):
 def main():
     prop, var = sys.argv[1], sys.argv[2]
     extra = sys.argv[3:]
-    wt = '/tmp/wt_%s' % prop
+    rnd = os.environ.get('SEED_ROUND', '1')
+    wt = ('/tmp/wt_%s' if rnd == '1' else '/tmp/wt' + rnd + '_%s') % prop
+    store_var = var if rnd == '1' else chr(ord(var) + 2 * (int(rnd) - 1))      # round 2: a, b are stored as c, d
     sd = os.path.join(wt, '_seed', var)
     patch = os.path.join(sd, 'patch.diff')
     demo = os.path.join(sd, 'demo.py')
@@ -59,7 +61,7 @@ def main():
     if out.strip():
         print('/repo is not clean, refusing:', out)
         return 2
-    rc, out = sh('git apply %s' % patch, '/repo')
+    rc, out = sh('git apply %s || git apply -C1 %s' % (patch, patch), '/repo')
     if rc:
         print('patch does not apply to /repo:', out)
         return 2
@@ -74,7 +76,7 @@ def main():
                 print(outc[-1500:])
     finally:
         sh('git checkout -- .', '/repo')
-    dst = os.path.join(VERIF, 'seeded', '%s-%s' % (prop, var))
+    dst = os.path.join(VERIF, 'seeded', '%s-%s' % (prop, store_var))
     os.makedirs(dst, exist_ok=True)
     shutil.copy(patch, os.path.join(dst, 'patch.diff'))
     shutil.copy(demo, os.path.join(dst, 'demo.py'))
